@@ -1465,6 +1465,30 @@ impl PhysicalOperator for ExternalSortExec {
         // Clean up
         let _ = std::fs::remove_dir_all(&spill_dir);
 
+        // Top-K: the planner fuses `ORDER BY … LIMIT k` into this operator
+        // (no LimitExec above it), so the spilled path must honour `fetch`
+        // exactly like the in-memory SortExec::with_fetch path does.
+        let result = match self.fetch {
+            Some(fetch) => {
+                let mut remaining = fetch;
+                let mut limited = Vec::new();
+                for batch in result {
+                    if remaining == 0 {
+                        break;
+                    }
+                    let take = remaining.min(batch.num_rows());
+                    remaining -= take;
+                    limited.push(if take == batch.num_rows() {
+                        batch
+                    } else {
+                        batch.slice(0, take)
+                    });
+                }
+                limited
+            }
+            None => result,
+        };
+
         Ok(Box::pin(stream::iter(result.into_iter().map(Ok))))
     }
 
